@@ -132,9 +132,29 @@ def run_phqx(mode, src, out, overlay, extra=()):
 # driver generation
 
 def _subst(s, mapping):
-    for k, v in mapping.items():
-        s = re.sub(r"\b%s\b" % re.escape(k), v, s)
-    return s
+    if not mapping:
+        return s
+    return re.sub(r"\b(%s)\b" % "|".join(re.escape(k) for k in mapping), lambda m: mapping[m.group(1)], s)
+
+
+def _split_targs(written):
+    """'A<B<C>, D>' -> ('A', ['B<C>', 'D'])"""
+    if "<" not in written:
+        return written, []
+    head, rest = written.split("<", 1)
+    rest = rest.rstrip()[:-1]
+    out, depth, cur = [], 0, ""
+    for ch in rest:
+        if ch == "," and depth == 0:
+            out.append(cur.strip())
+            cur = ""
+            continue
+        depth += ch in "<([" 
+        depth -= ch in ">)]"
+        cur += ch
+    if cur.strip():
+        out.append(cur.strip())
+    return head.strip(), out
 
 
 CONTROL = r'''
@@ -190,12 +210,50 @@ def gen_driver(inv, T, tier):
             for b in c["bases"]:
                 if "NumericType" in b and "<" in b:
                     base_insts.add(b)
+    # bases of bases (a CRTP or mixin base of Dimensional*): substitute the written arguments through
+    def _expand(b, depth=0):
+        head, args = _split_targs(b)
+        rec = ct.get("PhQ::" + head) or ct.get(head)
+        if rec is None or depth > 4:
+            return
+        names_ = [p["n"] for p in rec["tparams"]]
+        if len(names_) != len(args):
+            return
+        for bb in rec["bases"]:
+            if "<" not in bb:
+                continue
+            nb = _subst(bb, dict(zip(names_, args)))
+            if nb not in base_insts and nb not in more_bases:
+                more_bases.append(nb)
+                _expand(nb, depth + 1)
+    more_bases = []
     for b in sorted(base_insts):
+        _expand(b)
+    for b in more_bases + sorted(base_insts):
         w("template class %s;" % _subst(b, {"NumericType": T}))
     for nm, c in inst_classes:
         w("template class %s<%s>;" % (nm, T))
-    # (d) member templates
     k = 0
+    # hidden friends (friend functions defined inside a class template): reachable by argument-dependent lookup only
+    for c in inv["class_templates"]:
+        names = [p["n"] for p in c["tparams"]]
+        if names != ["NumericType"] or not c["name"].startswith("PhQ::"):
+            continue
+        short_name = c["name"].split("::")[-1]
+        for h in c.get("hidden_friends", []):
+            tps = h.get("tparams") or []
+            if any(p["kind"] != "type" or not re.search(r"Numeric|Number", p["n"]) for p in tps):
+                w("// hidden friend template not instantiated generically: %s of %s" % (h["sname"], c["name"]))
+                continue
+            combos = [{"NumericType": T}]
+            for p in tps:
+                combos = [dict(m, **{p["n"]: o}) for m in combos for o in NUMERIC]
+            for m in combos:
+                ps = [re.sub(r"\b%s\b(?!\s*<)" % short_name, "%s<NumericType>" % short_name, p) for p in h["params"]]
+                args = ", ".join("mk<%s>()" % _subst(p, m) for p in ps)
+                k += 1
+                w("void drv_h%d() { (void)%s(%s); }" % (k, h["sname"], args))
+    # (d) member templates
     for f in inv["function_templates"]:
         if not f.get("in_class"):
             continue
@@ -215,6 +273,8 @@ def gen_driver(inv, T, tier):
         tps = f["tparams"]
         if len(tps) == 1 and tps[0]["kind"] == "type":
             tn = tps[0]["n"]
+            if not re.search(r"Numeric|Number", tn):
+                continue    # not a numeric type parameter (a vector type of a helper, ...): never guessed; analysed through its callers
             for o in (others if f["kind"] == "ctor" or f["sname"] == "operator=" else NUMERIC):
                 m = {"NumericType": T, tn: o}
                 args = ", ".join("mk<%s>()" % _subst(p, m) for p in f["params"])
